@@ -68,6 +68,8 @@ def _one(case):
         return ('recursion', 'RecursionError', 0.0)
     dt = time.time() - t
     cls = line.split(' ')[0] if line.startswith('TREE') else line
+    if cls == 'ERR HANG':
+        return ('no-termination', 'no answer within %d s' % common.IMPL_TIME_LIMIT, dt)
     if cls not in ALLOWED:
         return ('internal-error', '%s: %s' % (type(exc).__name__, str(exc)[:80]), dt)
     if dt > TIME_LIMIT:
